@@ -66,13 +66,19 @@ impl TaskManager {
 			let handle = tokio::spawn(async move {
 				loop {
 					// Wait for notification
+					#[cfg(surrealkv_verif)]
+					crate::verif::yieldp::yield_point("task.mem.wait", 0, 0);
 					notify.notified().await;
+					#[cfg(surrealkv_verif)]
+					crate::verif::yieldp::yield_point("task.mem.woken", 0, 0);
 
 					if stop_flag.load(Ordering::SeqCst) {
 						break;
 					}
 
 					running.store(true, Ordering::SeqCst);
+					#[cfg(surrealkv_verif)]
+					crate::verif::yieldp::yield_point("task.mem.running", 0, 0);
 					log::debug!("Memtable flush task starting");
 
 					// Flush ALL pending immutable memtables in a loop
@@ -80,14 +86,20 @@ impl TaskManager {
 					loop {
 						match core.compact_memtable() {
 							Ok(()) => {
+								#[cfg(surrealkv_verif)]
+								crate::verif::yieldp::yield_point("task.mem.flushed", 0, 0);
 								flush_count += 1;
 								write_stall.signal_work_done();
 								// Check if there are more immutables to flush
 								if !core.has_pending_immutables() {
+									#[cfg(surrealkv_verif)]
+									crate::verif::yieldp::yield_point("task.mem.nopending", 0, 0);
 									break;
 								}
 							}
 							Err(e) => {
+								#[cfg(surrealkv_verif)]
+								crate::verif::yieldp::yield_point("task.mem.error", 0, 0);
 								log::error!("Memtable compaction task error: {e:?}");
 								core.error_handler()
 									.set_error(e, BackgroundErrorReason::MemtablaFlush);
@@ -104,12 +116,18 @@ impl TaskManager {
 						);
 						// Trigger level compaction after successful flushes
 						level_notify.notify_one();
+						#[cfg(surrealkv_verif)]
+						crate::verif::yieldp::yield_point("task.mem.notified_level", 0, 0);
 					} else {
 						log::debug!("Memtable flush task: no immutables to flush");
 					}
 
 					running.store(false, Ordering::SeqCst);
+					#[cfg(surrealkv_verif)]
+					crate::verif::yieldp::yield_point("task.mem.idle", 0, 0);
 				}
+				#[cfg(surrealkv_verif)]
+				crate::verif::yieldp::yield_point("task.mem.exit", 0, 0);
 			});
 			task_handles.lock().unwrap().as_mut().unwrap().push(handle);
 		}
@@ -125,28 +143,42 @@ impl TaskManager {
 			let handle = tokio::spawn(async move {
 				loop {
 					// Wait for notification
+					#[cfg(surrealkv_verif)]
+					crate::verif::yieldp::yield_point("task.level.wait", 0, 0);
 					notify.notified().await;
+					#[cfg(surrealkv_verif)]
+					crate::verif::yieldp::yield_point("task.level.woken", 0, 0);
 
 					if stop_flag.load(Ordering::SeqCst) {
 						break;
 					}
 
 					running.store(true, Ordering::SeqCst);
+					#[cfg(surrealkv_verif)]
+					crate::verif::yieldp::yield_point("task.level.running", 0, 0);
 					log::debug!("Level compaction task starting");
 
 					// Use leveled compaction strategy
 					let strategy: Arc<dyn CompactionStrategy> =
 						Arc::new(Strategy::from_options(Arc::clone(&opts)));
 					if let Err(e) = core.compact(strategy) {
+						#[cfg(surrealkv_verif)]
+						crate::verif::yieldp::yield_point("task.level.error", 0, 0);
 						log::error!("Level compaction task error: {e:?}");
 						core.error_handler().set_error(e, BackgroundErrorReason::Compaction);
 						write_stall.signal_shutdown();
 					} else {
+						#[cfg(surrealkv_verif)]
+						crate::verif::yieldp::yield_point("task.level.done", 0, 0);
 						log::debug!("Level compaction completed successfully");
 						write_stall.signal_work_done();
 					}
 					running.store(false, Ordering::SeqCst);
+					#[cfg(surrealkv_verif)]
+					crate::verif::yieldp::yield_point("task.level.idle", 0, 0);
 				}
+				#[cfg(surrealkv_verif)]
+				crate::verif::yieldp::yield_point("task.level.exit", 0, 0);
 			});
 			task_handles.lock().unwrap().as_mut().unwrap().push(handle);
 		}
@@ -165,6 +197,8 @@ impl TaskManager {
 		// Only notify if not already running
 		if !self.memtable_running.load(Ordering::Acquire) {
 			self.memtable_notify.notify_one();
+			#[cfg(surrealkv_verif)]
+			crate::verif::yieldp::yield_point("task.wake_mem", 0, 0);
 		}
 	}
 
@@ -172,16 +206,22 @@ impl TaskManager {
 		// Only notify if not already running
 		if !self.level_running.load(Ordering::Acquire) {
 			self.level_notify.notify_one();
+			#[cfg(surrealkv_verif)]
+			crate::verif::yieldp::yield_point("task.wake_level", 0, 0);
 		}
 	}
 
 	pub async fn stop(&self) {
 		// Set the stop flag to prevent new operations from starting
 		self.stop_flag.store(true, Ordering::SeqCst);
+		#[cfg(surrealkv_verif)]
+		crate::verif::yieldp::yield_point("task.stop.flag", 0, 0);
 
 		// Wake up any waiting tasks so they can check the stop flag and exit
 		self.memtable_notify.notify_one();
 		self.level_notify.notify_one();
+		#[cfg(surrealkv_verif)]
+		crate::verif::yieldp::yield_point("task.stop.notified", 0, 0);
 
 		// Wait for any in-progress compactions to complete (no timeout - wait
 		// indefinitely)
@@ -189,10 +229,14 @@ impl TaskManager {
 			|| self.level_running.load(Ordering::Acquire)
 		{
 			// Yield to other tasks and wait a short time before checking again
+			#[cfg(surrealkv_verif)]
+			crate::verif::yieldp::yield_point("task.stop.poll", 0, 0);
 			tokio::time::sleep(tokio::time::Duration::from_millis(50)).await;
 		}
 
 		// Now it's safe to wait for all tasks to complete
+		#[cfg(surrealkv_verif)]
+		crate::verif::yieldp::yield_point("task.stop.join", 0, 0);
 		let task_handles = self.task_handles.lock().unwrap().take().unwrap();
 		for handle in task_handles {
 			if let Err(e) = handle.await {
